@@ -613,6 +613,7 @@ def str_atoms(fields=True, loopvar=None):
         st.sampled_from(['description', 'source', 'location']).map(lambda n: ['fieldb', n]),
         pattern_text.map(lambda s: ['str', s]),
         st.sampled_from(FIELD_VALUES + ['WIRE', 'Amex', 'chase']).map(lambda s: ['str', s]),
+        st.sampled_from(DATES).map(lambda s: ['str', s]),  # text that merely LOOKS like a date is text when compared with text
         st.sampled_from(['label', 'Label', 'LABEL']).map(lambda n: ['var', n]),
     ]
     if fields:
